@@ -249,7 +249,7 @@ def run_cli_shard(d):
         for rate, ovl in RATES[:2]:
             ads = make(specs, rate, ovl)
             plain = AdapterCutter(ads, times=1, action="trim", index=False)
-            for variant in ("suffix", "rename", "length", "polya"):
+            for variant in ("suffix", "rename", "length", "polya", "info"):
                 argv = ["--no-index", "--revcomp", "-e", repr(rate), "-O", str(ovl), "-o", out, "--json", js]
                 if variant == "rename":
                     argv += ["--rename", "{id}|{rc}|{adapter_name}"]
@@ -257,6 +257,9 @@ def run_cli_shard(d):
                     argv += ["--length", "2"]
                 if variant == "polya":
                     argv += ["--poly-a"]  # a later stage: it must see the read in the chosen orientation (tail at the 3' end)
+                if variant == "info":
+                    # an output: it must describe the chosen orientation, also when a 5' base was removed before adapter trimming
+                    argv += ["-u", "1", "--info-file", os.path.join(wd, "info.tsv")]
                 for t, s in specs:
                     argv += [flag[t], s]
                 r = clih.run_cli(argv + [inp])
@@ -267,10 +270,17 @@ def run_cli_shard(d):
                     continue
                 got = clih.read_records(out)[1]
                 nrc = 0
+                info_rows = {}
+                if variant == "info":
+                    with open(os.path.join(wd, "info.tsv")) as fh:
+                        for ln in fh:
+                            row = ln.rstrip("\n").split("\t")
+                            info_rows.setdefault(row[0].split()[0], []).append(row)
                 for (nm, s, q), g in zip(recs, got):
                     res["evals"] += 1
-                    fwd, fm = plain.match_and_trim(SequenceRecord(nm, s, q))
-                    rev, rm = plain.match_and_trim(SequenceRecord(nm, refops.revcomp(s), q[::-1]))
+                    cutn = 1 if variant == "info" else 0
+                    fwd, fm = plain.match_and_trim(SequenceRecord(nm, s[cutn:], q[cutn:]))
+                    rev, rm = plain.match_and_trim(SequenceRecord(nm, refops.revcomp(s[cutn:]), q[cutn:][::-1]))
                     use = bool(rm) and sum(m.score for m in rm) > sum(m.score for m in fm)
                     nrc += int(use)
                     e, em = (rev, rm) if use else (fwd, fm)
@@ -287,6 +297,15 @@ def run_cli_shard(d):
                     if tuple(g) != (en, es, eq):
                         V.append(("cli:record", "command-line output is not the stated orientation / name", dict(cfg, read=s, got=list(g), expected=[en, es, eq])))
                         break
+                    if variant == "info" and em:
+                        row = (info_rows.get(nm.split()[0]) or [[]])[0]
+                        whole_s, whole_q = (refops.revcomp(s), q[::-1]) if use else (s, q)
+                        ok = len(row) >= 12 and row[4] + row[5] + row[6] == whole_s and row[8] + row[9] + row[10] == whole_q and \
+                            row[11] == ("1" if use else "0") and whole_s[int(row[2]):int(row[3])] == row[5]
+                        if not ok:
+                            V.append(("cli:info", "the info-file row of the read does not describe it in the chosen orientation",
+                                      dict(cfg, read=s, row=row, chosen="reverse complement" if use else "as given")))
+                            break
                 else:
                     j = clih.read_json(js)
                     if j["read_counts"].get("reverse_complemented") != nrc:
